@@ -817,6 +817,102 @@ Proof.
   intros [IAs _ _] t j H. destruct (A_supp _ _ _ IAs t j H). pose proof (A_range _ _ _ IAs t j). repeat split; try assumption; lia.
 Qed.
 
+(* ------------------------------------------------------------------ the live cocycles are independent *)
+(* The coordinate j of the annotation matrix, phi_j : tau |-> ann(tau)[j], vanishes on the simplices before sigma_j and takes the
+   value 1 on sigma_j as long as the class j is alive: the live cocycles are non-trivial and linearly independent
+   (triangular against the simplices that created them). *)
+Definition lowT (ann : list vec) : Prop := forall t j, vget (nth t ann []) j <> 0 -> (j <= t)%nat.
+Definition oneT (ann : list vec) (rows : list (nat * Z)) : Prop := forall j, In j (map fst rows) -> vget (nth j ann []) j = 1.
+
+Lemma T_snoc_nil ann rows : lowT ann -> oneT ann rows -> lowT (ann ++ [[]]) /\ oneT (ann ++ [[]]) rows.
+Proof.
+  intros HL HO. split.
+  - intros t j. rewrite nth_snoc_nil. apply HL.
+  - intros j Hj. rewrite nth_snoc_nil. apply HO. exact Hj.
+Qed.
+Lemma T_snoc_unit ann rows n : InvA ann rows n -> lowT ann -> oneT ann rows ->
+  lowT (ann ++ [unit_vec n 1]) /\ oneT (ann ++ [unit_vec n 1]) (rows ++ [(n, p)]).
+Proof.
+  intros IAA HL HO. pose proof (A_len _ _ _ IAA) as L. split.
+  - intros t j. rewrite nth_snoc, L. destruct (Nat.ltb_spec t n); [apply HL|].
+    destruct (Nat.eqb_spec t n) as [->|]; [|rewrite vget_nil; intros H'; contradiction].
+    rewrite vget_unit. destruct (Nat.eqb_spec j n) as [->|]; [lia|intros H'; contradiction].
+  - intros j Hj. rewrite map_app in Hj. apply in_app_or in Hj. rewrite nth_snoc, L. destruct Hj as [Hj|[<-|[]]].
+    + destruct (A_rows _ _ _ IAA j Hj) as [Hlt _]. destruct (Nat.ltb_spec j n); [apply HO; exact Hj|lia].
+    + cbn [fst]. destruct (Nat.ltb_spec n n); [lia|]. rewrite Nat.eqb_refl. rewrite vget_unit, Nat.eqb_refl. reflexivity.
+Qed.
+Lemma T_destroy ann rows n a k x tl : InvA ann rows n -> a_ds_rev a 0 = (k, x) :: tl -> lowT ann -> oneT ann rows ->
+  lowT (map (upd a k (inv_of x)) ann ++ [[]]) /\ oneT (map (upd a k (inv_of x)) ann ++ [[]]) (rows_without k p rows).
+Proof.
+  intros IAA Hds HL HO.
+  destruct (a_ds_rev_head a 0 k x tl Hds) as (_ & _ & _ & Hhigh).
+  assert (Hah : forall j, vget a j <> 0 -> (j <= k)%nat).
+  { intros j Hj. destruct (Nat.le_gt_cases j k) as [Hle|Hgt]; [exact Hle|]. exfalso. apply Hj. apply Hhigh. lia. }
+  split.
+  - intros t j. rewrite nth_snoc_nil, nth_map_upd. intros H. apply upd_support in H. destruct H as [H|[H1 H2]].
+    + apply HL. exact H.
+    + pose proof (HL t k H1). pose proof (Hah j H2). lia.
+  - intros j Hj. rewrite nth_snoc_nil, nth_map_upd.
+    apply in_rows_without_inv in Hj; [|apply (A_ch _ _ _ IAA)]. destruct Hj as [Hj Hjk].
+    pose proof (HO j Hj) as H1. unfold upd.
+    destruct (Z.eq_dec (vget (nth j ann []) k) 0) as [E|E].
+    + rewrite E, tm_0. cbn. exact H1.
+    + pose proof (HL j k E) as Hkj.
+      assert (Haj : vget a j = 0).
+      { destruct (Z.eq_dec (vget a j) 0) as [E2|E2]; [exact E2|]. pose proof (Hah j E2). lia. }
+      destruct (f_tm F (inv_of x) (vget (nth j ann []) k) =? 0); [exact H1|].
+      rewrite vget_vzip by apply pte_00. rewrite H1, Haj. cbn [F zp_ops f_pte]. rewrite fz_pte_mod by exact ppos.
+      rewrite Z.mul_0_r, Z.add_0_r. apply Z.mod_1_l. exact pgt1.
+Qed.
+
+Lemma step_T s n : (n < length cells)%nat -> Inv s n -> lowT (s_ann s) -> oneT (s_ann s) (s_rows s) ->
+  let s' := step sw F cells dim_max m s (cell_at n) in lowT (s_ann s') /\ oneT (s_ann s') (s_rows s').
+Proof.
+  intros Hn HI HL HO. pose proof HI as [IAs IHs IPs]. pose proof (A_len _ _ _ IAs) as Hlen.
+  destruct (Hvalid n Hn) as [Hfaces Hedge].
+  cbv zeta. unfold step. rewrite Hlen.
+  destruct (c_dim (cell_at n)) as [|[|d]] eqn:Ed.
+  - cbn [s_ann s_rows]. apply T_snoc_nil; assumption.
+  - destruct (negb (coc s (nth (if sw then 0 else 1)%nat (c_faces (cell_at n)) 0%nat) =? coc s (nth (if sw then 1 else 0)%nat (c_faces (cell_at n)) 0%nat))%nat).
+    + destruct (val_of cells _ <? val_of cells _); cbn [s_ann s_rows]; apply T_snoc_nil; assumption.
+    + destruct (1 <? dim_max); cbn [s_ann s_rows].
+      * change (new_col n (f_one F)) with (unit_vec n 1). change (f_char F) with p. apply T_snoc_unit; assumption.
+      * apply T_snoc_nil; assumption.
+  - set (a := bann F (s_ann s) (S (S d)) (c_faces (cell_at n)) 0 []).
+    assert (Ha : a = bann F (s_ann s) (dim_of cells n) (c_faces (cell_at n)) 0 []).
+    { unfold a. change (dim_of cells n) with (c_dim (cell_at n)). rewrite Ed. reflexivity. }
+    destruct (a_ds_rev a 0) as [|[k x] tl] eqn:Eds.
+    + destruct (Z.of_nat (S (S d)) <? dim_max); cbn [s_ann s_rows].
+      * change (new_col n (f_one F)) with (unit_vec n 1). change (f_char F) with p. apply T_snoc_unit; assumption.
+      * apply T_snoc_nil; assumption.
+    + destruct (A_destroy (s_ann s) (s_rows s) n a k x tl Hn IAs Ha Eds) as (_ & Hk & _ & Hx).
+      destruct (inv_of_spec x Hx) as [_ Hinz].
+      cbn [kill_loop]. change (f_char F) with p. change (f_one F) with 1.
+      destruct (Z.eqb_spec p 1) as [E1|_]; [lia|].
+      change (f_inv F x p) with (inv_of x, p). cbv beta iota.
+      destruct (Z.eqb_spec (inv_of x) 0) as [E0|_]; [contradiction|].
+      rewrite Z.div_same by lia. rewrite kill_loop_one.
+      change (negb (1 =? 1) && (Z.of_nat (S (S d)) <? dim_max)) with false. cbv beta iota.
+      cbn [s_ann s_rows s_comp s_pairs destroy].
+      apply (T_destroy (s_ann s) (s_rows s) n a k x tl); assumption.
+Qed.
+
+Lemma run_T pre : forall suf, cells = pre ++ suf ->
+  let s := run sw F cells dim_max m pre in lowT (s_ann s) /\ oneT (s_ann s) (s_rows s).
+Proof.
+  unfold run. induction pre as [|c pre IH] using rev_ind; intros suf H.
+  - cbn. split.
+    + intros t j Hj. destruct t; cbn [nth] in Hj; rewrite vget_nil in Hj; contradiction.
+    + intros j [].
+  - rewrite fold_left_app. cbn [fold_left].
+    rewrite <- app_assoc in H. cbn [app] in H.
+    assert (Hc : c = cell_at (length pre)).
+    { unfold cell_at. rewrite H. rewrite app_nth2 by lia. rewrite Nat.sub_diag. reflexivity. }
+    rewrite Hc. destruct (IH (c :: suf) H) as [HL HO]. apply step_T; try assumption.
+    + rewrite H. rewrite app_length. cbn [length]. lia.
+    + apply (run_inv pre (c :: suf)). exact H.
+Qed.
+
 (* ------------------------------------------------------------------ completeness of the pairing *)
 (* When no interval is discarded by the minimal length, every simplex of dimension below dim_max ends up in a pair (finite or
    infinite): it is a recorded death, a recorded birth, a live row or the creator of a live component. *)
@@ -1235,6 +1331,14 @@ Proof.
   intros pre suf dim_max H s t j Ht.
   apply (cocycle_inv p Hp cells s (length pre)); [|exact Ht].
   apply (run_inv p Hp Hp16 cells dim_max m sw Hv pre suf H).
+Qed.
+
+Theorem pcoh_live_independent : forall pre suf dim_max, cells = pre ++ suf ->
+  let s := run sw (zp_ops p) cells dim_max m pre in
+  (forall t j, vget (nth t (s_ann s) []) j <> 0 -> (j <= t)%nat) /\
+  (forall j, In j (map fst (s_rows s)) -> vget (nth j (s_ann s) []) j = 1).
+Proof.
+  intros pre suf dim_max H. apply (run_T p Hp Hp16 cells dim_max m sw Hv pre suf H).
 Qed.
 
 Theorem pcoh_support : forall pre suf dim_max, cells = pre ++ suf ->
